@@ -7,7 +7,7 @@
 EXTENDS YParser, YRenderBlock, TLC, Json
 CONSTANTS NL
 Kinds == { Ln(<<"a", "b">>, "text", 0), Ln(<<"#", " ", "c">>, "text", 0), Ln(<<"-", " ", "e">>, "text", 0), Ln(<<"k", ":", " ", "v">>, "text", 0),
-           Ln(<<" ", "m">>, "more", 0), Ln(<<"\t", "t">>, "more", 0), Ln(<<>>, "empty", 0), Ln(<<>>, "empty", 1),
+           Ln(<<" ", "m">>, "more", 0), Ln(<<"\t", "t">>, "more", 0), Ln(<<>>, "empty", 0), Ln(<<>>, "empty", 1), Ln(<<>>, "empty", 99),      \* (99: the whole indentation, nothing else)
            Ln(<<".", ".", ".">>, "text", 0), Ln(<<"-", "-", "-", " ", "x">>, "text", 0),        \* look like document markers: content when indented
            Ln(<<"1", "2">>, "text", 0),
            Ln(<<"<u19977>", "x">>, "text", 0) }                                                    \* starts with a character whose code point ends in the byte of a tab                                                           \* reads as an integer: a block scalar is a string
